@@ -456,3 +456,24 @@ prop("C20",
      technique="bounded-exhaustive enumeration of tree shapes x row kinds x actions as black-box runs of the generated crate; the output is parsed back from indentation and glyphs alone and compared with the reference display tree and, cell by cell, with the tapped statistics",
      text="Every tree shape family is run under bench (deterministic virtual clock), test and list actions and several counter / sort / ignore variants; a parser rebuilds the tree from indentation and box glyphs alone (failure, a bar not exactly under ancestors with later siblings, a corner that is not the last child are violations); the parsed tree must equal the reference tree of selected, sorted nodes (each once, depth first, thread-count and argument branches included), the header must carry the six headings, every statistics row and continuation row must equal the tapped statistics of that benchmark in order and carry its prefix, and (ignored) rows must not have run.",
      note=Z_NOTE + " The statistics tap (hook H7) formats with the real formatters outside the painter.", engine="Z")
+
+
+# further end-to-end slices through the compiled binary
+PROPS["C03"]["quick"].append({"engine": "Z", "prop": "C03"})
+PROPS["C03"]["thorough"].append({"engine": "Z", "prop": "C03", "zoo_tier": "thorough"})
+META["C03"]["engine"] = "S+L+Z"
+PROPS["C15"]["quick"].append({"engine": "Z", "prop": "C15"})
+PROPS["C15"]["thorough"].append({"engine": "Z", "prop": "C15", "zoo_tier": "thorough"})
+META["C15"]["engine"] = "S+Z"
+PROPS["C15"]["assumptions"] = [
+    "function level: pairwise-exhaustive over the 11 option fields x 5 levels (interference among three or more fields at once only for single-level triples in thorough); 2^55 full assignments are not enumerable",
+    "end to end (engine Z): benchmark + 3 nested group levels with all 16 set/unset patterns for sample_count and for sample_size, inherited threads / counters through groups and a plain module, x 17 runner sources (CLI flag, DIVAN_* variable, builder call, CLI over environment); observed through call counts, samples / iters, counter rows, thread branches; the three ignore flags on the ignore family",
+    "automatic sample size with several threads is excluded from call-count prediction (clock readings depend on the schedule)",
+]
+PROPS["C16"]["quick"].append({"engine": "Z", "prop": "C16"})
+PROPS["C16"]["thorough"].append({"engine": "Z", "prop": "C16", "zoo_tier": "thorough"})
+META["C16"]["engine"] = "S+Z"
+PROPS["C08"]["quick"].append({"engine": "Z", "prop": "C08"})
+PROPS["C08"]["thorough"].append({"engine": "Z", "prop": "C08"})
+META["C08"]["engine"] = "L+Z"
+PROPS["C08"]["assumptions"].append("engine Z adds four single real-thread executions of the compiled binary with a panicking thread (60 s cap): supplementary evidence, one schedule each; the verdict comes from the loom exploration")
